@@ -358,6 +358,52 @@ async def end_to_end(kind: str, rng: Rng, n: int) -> list[dict]:
     return out
 
 
+async def redis_topic_filter(pairs: list) -> list[dict]:
+    """the Redis consumer's own topic filter (not a re-implementation): a consumer subscribed to `flt` on a queue that holds one
+    message of topic `topic` takes it iff the two names are the same — names that are prefixes of one another included"""
+    from repid.connections.redis.consumer import _RedisConsumer
+    from repid import MessageCategory
+    out = []
+    for n, (flt, topic, id_) in enumerate(pairs):
+        fake_redis.reset_servers()
+        broker = RedisMessageBroker(f"redis://c07-filter-{n}")
+        key = RoutingKey(topic=topic, queue="fq", priority=5, id_=id_)
+        await broker.enqueue(key, "{}", Parameters())
+        cons = _RedisConsumer(broker, "fq", [flt], category=MessageCategory.NORMAL)
+        got = await cons.consume_or_none()
+        out.append({"filter": flt, "topic": topic, "id": id_, "taken": None if got is None else [got[0].topic, got[0].id_]})
+    return out
+
+
+def part_topic_filter(rng: Rng, model: Model, res: Result, n: int) -> None:
+    name_first = [(65, 90), (95, 95), (97, 122)]
+    name_rest = [(45, 45), (48, 57), (65, 90), (95, 95), (97, 122)]
+    pairs = []
+    for _ in range(n):
+        topic = rand_from(rng, name_rest, name_first)
+        flt = rng.choice([topic, topic, topic[:-1] or "x", topic + "x", topic + "_2", topic[: max(1, len(topic) // 2)],
+                          rand_from(rng, name_rest, name_first)])
+        if VALID_NAME.fullmatch(flt) is None:
+            flt = topic
+        pairs.append((flt, topic, rand_from(rng, name_rest, name_rest)))
+    rows = vtime.run(lambda loop: redis_topic_filter(pairs), budget=20_000_000)
+    answers = model.ask([sx([A("names.topicMatches"), r["filter"], r["topic"] + ":" + r["id"]]) for r in rows])
+    res.extra["model_requests"] = res.extra.get("model_requests", 0) + len(answers)
+    for r, a in zip(rows, answers):
+        rel = "same" if r["filter"] == r["topic"] else ("prefix" if r["topic"].startswith(r["filter"]) else
+                                                        ("extension" if r["filter"].startswith(r["topic"]) else "unrelated"))
+        res.dist["redis-topic-filter:" + rel] += 1
+        res.note(("filter", r["filter"], r["topic"]))
+        taken = r["taken"] is not None
+        if taken != (a == "true"):
+            res.bad("corr", "Names.topicMatches vs the Redis consumer's topic filter (consume_or_none on the fake server)", case=r,
+                    observed=taken, expected=a)
+        if taken != (r["filter"] == r["topic"]):
+            res.bad("impl", "a Redis consumer subscribed to one topic took (or did not take) a message of another: valid names do not "
+                            "survive the broker's key encoding unambiguously", case=r, observed=r["taken"],
+                    expected=[r["topic"], r["id"]] if r["filter"] == r["topic"] else None)
+
+
 def check_e2e(rows: list[dict], res: Result) -> None:
     for r in rows:
         res.dist[f"e2e:{r['broker']}"] += 1
@@ -381,6 +427,7 @@ def run(ctx) -> Result:
     part_params(rng, model, res, 1500 if deep else 250, durs)
     part_floats(res, durs)
     part_names(rng, model, res, 1500 if deep else 250)
+    part_topic_filter(rng, model, res, 400 if deep else 80)
     for kind in ("mem", "redis", "rabbit"):
         rows = vtime.run(lambda loop, k=kind: end_to_end(k, Rng(seed, "c07/" + k), 400 if deep else 70), budget=50_000_000)
         check_e2e(rows, res)
